@@ -128,7 +128,7 @@ class Enclose:
                                        'collect_vec', 'rev', 'cloned', 'copied', 'chain', 'to_vec', 'filter', 'take', 'skip',
                                        'as_slice', 'as_mut_slice', 'iter_mut', 'unwrap_or_default', 'map_or', 'map_or_else',
                                        'unwrap_or_else', 'and_then', 'or_else', 'then', 'then_some', 'or', 'zip', 'find',
-                                       'find_map', 'filter_map', 'flat_map', 'fold', 'min', 'max', 'next', 'peekable') and t[3]:
+                                       'find_map', 'filter_map', 'flat_map', 'fold', 'min', 'max', 'next', 'peekable', 'index', 'index_mut') and t[3]:
                             inner = set()
                             for o in t[3]:
                                 inner |= of_op(o, d[0])
@@ -221,6 +221,55 @@ class Enclose:
         return at not in self.cfg.reachable(c, removed_nodes=[s]) or not self.cfg.can_reach(c, at)
 
 
+def _selectors_on(b, op, vec_local, depth=0, seen=None):
+    """How does the derivation of operand `op` select from the vector local `vec_local`? Returns the list of selector kinds
+    ('first', 'index0', 'next', 'last', 'other') met while following copies, references, fields, `union` and accessor calls."""
+    seen = seen if seen is not None else set()
+    out = []
+    if op[0] not in ('c', 'm') or depth > 12:
+        return out
+    r, _p = root_local(b, op[1].local)
+    if r in seen:
+        return out
+    seen.add(r)
+    if r == vec_local:
+        return ['other']
+    for d in def_sites(b).get(r, []):
+        if b.blocks[d[0]].cleanup:
+            continue
+        if d[1] == 'term':
+            t = d[2]
+            short = (callee(t)[1] or '').split('::')[-1]
+            args = [o for o in t[3] if o[0] in ('c', 'm')]
+            if args and root_local(b, args[0][1].local)[0] == vec_local or (
+                    args and short in ('index', 'index_mut', 'first', 'last', 'get', 'next') and
+                    _selectors_on(b, args[0], vec_local, depth + 1, set(seen)) == ['other']):
+                if short in ('index', 'index_mut', 'get'):
+                    k0 = t[3][1] if len(t[3]) > 1 else None
+                    zero = k0 is not None and k0[0] == 'k' and k0[1].i == 0
+                    out.append('index0' if zero else 'other')
+                elif short in ('first', 'next'):
+                    out.append(short)
+                elif short == 'last':
+                    out.append('last')
+                else:
+                    out.append('other')
+                continue
+            for o in args:
+                out += _selectors_on(b, o, vec_local, depth + 1, seen)
+        else:
+            rv = d[2]
+            from ..callgraph import iter_operands_rvalue as _it
+            ops_ = list(_it(rv))
+            if rv[0] == 'ref':
+                ops_.append(('c', rv[2]))
+            elif rv[0] == 'copyderef':
+                ops_.append(('c', rv[1]))
+            for o in ops_:
+                out += _selectors_on(b, o, vec_local, depth + 1, seen)
+    return out
+
+
 def run(prog, tier, repo):
     res = RuleResult('LOC-ENCLOSES', 'C14: the location stored in every syntax node the parser builds encloses the locations of the '
                      'node\'s sub-parts (its sources include one obtained no later and one obtained no earlier than each sub-part)')
@@ -297,6 +346,20 @@ def run(prog, tier, repo):
                         start = 0 if c == ENTRY else c
                         if bi != start and bi in an.cfg.reachable(start, removed_nodes=[x for x in real if x != start]) and bi not in real:
                             bad.append((fname, 'ends after the node\'s location can'))
+                # a list child is covered to its end only if the location looks at more than the list's first element
+                for k2, f2 in enumerate(fields):
+                    if ops[k2] is loc_op or ops[k2][0] not in ('c', 'm'):
+                        continue
+                    vroot = root_local(b, ops[k2][1].local)[0]
+                    if vroot is None or not strip_refs(b.locals[vroot]).s.startswith('std::vec::Vec'):
+                        continue
+                    sel = _selectors_on(b, loc_op, vroot)
+                    if sel and all(x in ('first', 'index0', 'next') for x in sel):
+                        cb_ = an.birth_op(ops[k2])
+                        later = [x for x in real if x not in cb_ and all(an.after(x, c, bi) for c in cb_ if c != ENTRY)]
+                        if not later:
+                            bad.append((f2.name, 'has more than one element but only its first element takes part in the node\'s location, '
+                                        'which therefore ends before the later elements do'))
                 # siblings: a child node built in this function must not enclose another child of the same parent
                 for k, f in enumerate(fields):
                     if ops[k] is loc_op or ops[k][0] not in ('c', 'm') or ops[k][1].proj:
